@@ -89,7 +89,7 @@ func (LegacyScenario) GenCase(r *rand.Rand, prop string) interface{} {
 	c := &LegCase{Pkg: pick(r, "middleware", "resbadger"), Default: chance(r, 50), Typed: chance(r, 40), Workers: pick(r, 1, 2, 4)}
 	c.ImagePct = pick(r, 0, 10, 30)
 	c.IndexSet = c.Pkg == "resbadger" && chance(r, 50)
-	for _, p := range []string{"conn.Publish", "event", "rawEvent", "worker.beforeCb", "worker.afterCb", "runWith.beforeLock", "handler", "handleRequest", "auto.lock", "badger.commit"} {
+	for _, p := range []string{"conn.Publish", "event", "rawEvent", "worker.beforeCb", "worker.afterCb", "runWith.beforeLock", "handler", "handleRequest", "auto.lock", "badger.commit", "badger.view", "badger.update"} {
 		if chance(r, 60) {
 			c.Optional = append(c.Optional, p)
 		}
